@@ -270,6 +270,7 @@ pub fn cluster_check(property: &str, tier: &str) -> Option<Check> {
         }
         "C03" | "C26" | "C27" | "C28" => Some(membership_check(property, quick)),
         "C10" | "C11" | "C12" => Some(timed_check(property, quick)),
+        "C30" | "C32" => Some(liveness_check(property, quick)),
         _ => None,
     }
 }
@@ -599,6 +600,105 @@ fn timed_check(property: &str, quick: bool) -> Check {
             let mut r = runs.remove(pos);
             r.max_depth = if quick { 8 } else { 13 };
             runs.push(r);
+        }
+    }
+    Check { runs, budget_s: if quick { 50 } else { 1200 } }
+}
+
+/// C30 (every accepted request is answered by its deadline) and C32 (recovery once faults
+/// stop): timed explorations of a fault prefix; the explorer appends a closure to every path.
+fn liveness_check(property: &str, quick: bool) -> Check {
+    use crate::simkit::cluster::RPolicy;
+    use crate::simkit::menu::Closure;
+    let mut runs = vec![];
+    let opts = timed_opts();
+    let mut menu = Menu::default();
+    menu.timeouts = false;
+    menu.heartbeats = false;
+    menu.vote_answers = vec![VoteAns::Deliver, VoteAns::Lose];
+    if property == "C30" {
+        menu.max_ticks = if quick { 3 } else { 5 };
+        menu.writes = vec![put("a", "1"), Op::Cas("a".into(), Some("1".into()), "2".into())];
+        menu.max_writes = 2;
+        menu.mixed = vec![(put("a", "m1"), "a".to_string())];
+        menu.reads = vec![("a".into(), RPolicy::Linearizable), ("a".into(), RPolicy::Lease)];
+        menu.max_reads = 2;
+        menu.crashes = vec![CrashMode::Process];
+        menu.max_crashes = 1;
+        menu.fatal_sm = true;
+        menu.closure = Closure::TimeOnly(8);
+        if let Some(p) = build_prefix(&opts, |s| {
+            let Some(_l) = s.run_until_leader() else { return false };
+            s.drain_all();
+            true
+        }) {
+            runs.push(RunSpec {
+                name: "3v-timed-requests-then-stepdown-fatal-or-lost-quorum".into(),
+                opts: opts.clone(),
+                menu: menu.clone(),
+                prefix: p,
+                max_depth: if quick { 7 } else { 10 },
+                max_devs: if quick { 2 } else { 3 },
+            });
+        }
+        // a leader that has not confirmed its leadership yet (no-op not committed)
+        if let Some(p) = build_prefix(&opts, |s| s.run_until_leader().is_some()) {
+            runs.push(RunSpec {
+                name: "3v-timed-fresh-leader-noop-uncommitted".into(),
+                opts: opts.clone(),
+                menu: menu.clone(),
+                prefix: p,
+                max_depth: if quick { 6 } else { 9 },
+                max_devs: if quick { 2 } else { 3 },
+            });
+        }
+        // gated state machine: applies lag behind commits
+        let mut og = opts.clone();
+        og.gated_sm = vec![1];
+        if let Some(p) = build_prefix(&og, |s| {
+            let Some(_l) = s.run_until_leader() else { return false };
+            s.drain_all();
+            true
+        }) {
+            runs.push(RunSpec {
+                name: "3v-timed-leader-state-machine-stalls".into(),
+                opts: og,
+                menu: menu.clone(),
+                prefix: p,
+                max_depth: if quick { 6 } else { 9 },
+                max_devs: if quick { 1 } else { 2 },
+            });
+        }
+    } else {
+        menu.max_ticks = if quick { 4 } else { 6 };
+        menu.writes = vec![put("a", "1"), put("a", "2")];
+        menu.max_writes = 1;
+        menu.crashes = vec![CrashMode::Process, CrashMode::Power];
+        menu.stops = true;
+        menu.max_crashes = 2;
+        menu.breaks = true;
+        menu.closure = Closure::Recover(if quick { 120 } else { 200 });
+        runs.push(RunSpec {
+            name: "3v-timed-faults-from-boot-then-recovery".into(),
+            opts: opts.clone(),
+            menu: menu.clone(),
+            prefix: vec![],
+            max_depth: if quick { 7 } else { 10 },
+            max_devs: if quick { 2 } else { 3 },
+        });
+        if let Some(p) = build_prefix(&opts, |s| {
+            let Some(_l) = s.run_until_leader() else { return false };
+            s.drain_all();
+            true
+        }) {
+            runs.push(RunSpec {
+                name: "3v-timed-faults-under-an-established-leader-then-recovery".into(),
+                opts: opts.clone(),
+                menu: menu.clone(),
+                prefix: p,
+                max_depth: if quick { 7 } else { 10 },
+                max_devs: if quick { 2 } else { 3 },
+            });
         }
     }
     Check { runs, budget_s: if quick { 50 } else { 1200 } }
